@@ -59,7 +59,7 @@ CHECKS = {
     'C15': ('property-based testing (Hypothesis): differential against an explicit loop over multi-indices and snapshots',
             'Generated data, mixed basis-function lists, add_one, single_core, second data set (Gram) and HOCUR settings; the '
             'transformed data tensor is compared with the explicit product formula; HOCUR on 5..64 modes (dense tensor not representable) is compared through single entries and rank-one contractions of the returned cores with the closed-form products. Exploration, not proof.',
-            'HOCUR ranks >= m; ill-conditioned cases (singular-value ratios of an unfolding in (1e-13, 1e-4); for many modes: below 1e-3, evaluated in closed form) are discarded; failures of HOCUR on data with an exact zero are the known finding F28 (KNOWN-FINDING line, exit 0).', '3/C15'),
+            'HOCUR ranks >= m (and m - 1 with a repeated snapshot: class of F29); ill-conditioned cases (singular-value ratios of an unfolding in (1e-13, 1e-4); for many modes: below 1e-3, evaluated in closed form) are discarded; failures of HOCUR on data with an exact zero are the known finding F28, failures with requested ranks m - 1 on data with a repeated snapshot the known finding F29 (KNOWN-FINDING lines, exit 0).', '3/C15'),
     'C06': ('property-based testing (Hypothesis): model-based operation histories with shadow copies + exhaustive producer x layout x follow-up cross product',
             'Generated call histories (10..40 steps over a pool of live tensor trains, results fed back as operands, in-place and '
             'overwrite variants interleaved, rank-1 bonds / F-ordered / transposed-view cores) with a shadow of every live object '
@@ -177,8 +177,8 @@ def main():
                  'Thorough tier = 16 Hypothesis shards per sub-check followed by 4 atheris campaigns per sub-check (VERIF_FUZZ=0 switches '
                  'the second stage off; it is skipped with a note in the evidence when atheris cannot be imported). '
                  'Known findings: known_findings.json (F01-F27 fixed by fix: commits in /repo, their replays under replays/<ID>/fixed-*.json '
-                 'are re-run on every check; F28, hocur on transformed data tensors with exact zeros, is known and not repaired: C15 '
-                 'prints a KNOWN-FINDING line for it and exits 0).',
+                 'are re-run on every check; F28, hocur on transformed data tensors with exact zeros, and F29, hocur with requested ranks m - 1 on data with a repeated snapshot, are known and not repaired: C15 '
+                 'prints a KNOWN-FINDING line for each and exits 0).',
     }
     with open(os.path.join(HERE, 'MANIFEST.json'), 'w') as f:
         json.dump(man, f, indent=1)
